@@ -167,7 +167,7 @@ def triples(ctx):
             kind, val, _, _ = impl.run_transition(names, s, a, True, seed=r.randrange(1 << 30))
             s2 = val if kind == 'ok' else s
             origin = 'real-dynamics'
-        elif kk < 0.8:
+        elif kk < 0.7:
             # arbitrary next state of the same shape
             g2 = gen.rand_grid(r, h, w, types, [0, 1, 2, 4], 0.5)
             if r.random() < 0.7:
@@ -175,6 +175,24 @@ def triples(ctx):
             p2, o2 = gen.rand_pose(r, h, w)
             s2 = (g2, p2, o2, gen.rand_held(r, types, [0, 1, 2, 4]))
             origin = 'arbitrary'
+        elif kk < 0.9:
+            # the walkable layout changes between s and s' (a door opens / shuts, a wall appears / vanishes): distances must be measured
+            # on each state's own layout
+            if sum(1 for row in g for c in row if c[0] == TY['Exit']) != 1:
+                g = tuple(tuple(F if c[0] == TY['Exit'] else c for c in row) for row in g)
+                g = gen.set_cell(g, (r.randrange(h), r.randrange(w)), (TY['Exit'], 0, 0, None))
+                s = (g, p, o, held)
+            cells = [(y, x) for y in range(h) for x in range(w) if (y, x) != p and g[y][x][0] != TY['Exit']]
+            g2 = g
+            if cells:
+                q = r.choice(cells)
+                c = g[q[0]][q[1]]
+                blocking = c[0] in (TY['Wall'], TY['Box']) or (c[0] == TY['Door'] and c[1] != 0)
+                new = r.choice([F, (TY['Door'], 0, 4, None)]) if blocking else r.choice([gen.WALL, (TY['Door'], r.choice([1, 2]), 4, None)])
+                g2 = gen.set_cell(g, q, new)
+            nb = [(p[0] + dy, p[1] + dx) for dy, dx in ((0, 0), (0, 0), (1, 0), (-1, 0), (0, 1), (0, -1)) if 0 <= p[0] + dy < h and 0 <= p[1] + dx < w]
+            s2 = (g2, r.choice(nb), o, held)
+            origin = 'layout-change'
         else:
             # perturb one feature
             p2, o2 = gen.rand_pose(r, h, w)
@@ -192,8 +210,10 @@ def run(ctx):
     rreqs, rmeta, treqs, tmeta = [], [], [], []
     for s, a, s2, origin in triples(ctx):
         ctx.count('triple origin', origin)
-        for _ in range(2):
+        for i in range(2):
             d = comp.rand_reward(r, types)
+            if origin == 'layout-change' and i == 0:
+                d = {'name': 'getting_closer_shortest_path', 'params': [comp.rand_param(r), comp.rand_param(r)], 'ty': TY['Exit']}
             f = comp.build_reward(d)
             got = call(f, s, a, s2)
             case = {'component': d, 'state': gen.show_state(s), 'action': impl.ACTS[a].name, 'next_state': gen.show_state(s2),
